@@ -17,6 +17,7 @@ MANIFEST = {
     'technique': 'metamorphic runtime oracle (transform input, compare outputs of the real functions), exact + guarded-tolerance',
 }
 LOGGER_ON_ODD_SHARDS = 'quarter'   # (sifting logs heavily: a quarter of the shards run with the logger set up)
+SESSION_NOISE = True      # every shard starts after unrelated session activity (harness.session_noise)
 BUDGET_S = {'quick': 75, 'thorough': 480}
 NCASES = {'quick': 1800, 'thorough': 30000}
 RULE = ('seeded random oscillatory signals (noise, walks, multi-tone+trend, AM/FM, integer-valued; n 16..300) x stop rule x '
@@ -27,6 +28,10 @@ ASSUMPTIONS = ['cases whose decisions lie within 1e-6 (relative) of a threshold/
 
 TOL = 1e-10
 GUARD = 1e-6
+# Records of ~1e5 noise samples sifted for ~100 iterations always contain a near-tie closer than 1e-6 somewhere; the measured
+# effect of reversal / scaling on them is ~1e-14 (see counters max_rel_err_*), so for those records only decisions closer than
+# 1e-9 are excluded (five orders of magnitude above the observed perturbation).
+GUARD_LONG = 1e-9
 
 
 def gen_case(rng, routine):
@@ -77,11 +82,13 @@ def _margins(S, x, io, eo, xo, single=False):
     return g, out, k
 
 
-def check_gni(ctx, case):
+def check_gni(ctx, case, wd=60):
     from emd import sift as S
     from emd.support import EMDSiftCovergeError
     x, io, eo, xo = np.asarray(case['x'], float), case['imf_opts'], case['envelope_opts'], case['extrema_opts']
     dig = digest(x, io, eo, xo, 'gni')
+    long = case.get('family') == 'noise-very-long'
+    rcase = {k: v for k, v in case.items() if k != 'x'} if case.get('family') == 'noise-very-long' else case
 
     def run(v):
         try:
@@ -89,7 +96,7 @@ def check_gni(ctx, case):
         except EMDSiftCovergeError:
             return 'raise'
     try:
-        with watchdog(60):
+        with watchdog(wd):
             base = run(x)
             g, mout, mk = _margins(S, x, io, eo, xo, single=True)
             ctx.case(dig, not (mout == 'noext' and mk == 1))
@@ -98,18 +105,20 @@ def check_gni(ctx, case):
                 ctx.count('gni_exact_comparisons')
                 ctx.count('gni_exact_negative' if c < 0 else 'gni_exact_positive')
                 if (base == 'raise') != (t == 'raise'):
-                    ctx.violation('gni-scale-raise', 'convergence error for x but not for %g*x (or vice versa)' % c, dict(case, c=c))
+                    ctx.violation('gni-scale-raise', 'convergence error for x but not for %g*x (or vice versa)' % c, dict(rcase, c=c))
                 elif base != 'raise' and (not np.array_equal(t[0], c * base[0]) or t[1] != base[1]):
                     ctx.violation('gni-pow2-scale' + ('-neg' if c < 0 else ''),
                                   'get_next_imf(%g*x) is not bit-identical to %g*get_next_imf(x): max diff %.3g, flags %s/%s'
-                                  % (c, c, np.abs(t[0] - c * base[0]).max() / abs(c), t[1], base[1]), dict(case, c=c))
+                                  % (c, c, np.abs(t[0] - c * base[0]).max() / abs(c), t[1], base[1]), dict(rcase, c=c))
             if base == 'raise':
                 ctx.count('base_raised')
                 return
             meth = eo['interp_method']
-            if g < GUARD:
+            if g < (GUARD_LONG if long else GUARD):
                 ctx.count('gni_guard_excluded:' + meth)
                 return
+            if long:
+                ctx.maxi('min_guard_margin_very_long', -g)
             if np.any(np.diff(x) == 0):
                 ctx.count('gni_approx_with_exact_plateaus')
             sc = np.abs(x).max()
@@ -119,7 +128,7 @@ def check_gni(ctx, case):
             if t == 'raise' or t[1] != base[1] or np.abs(t[0] / c - base[0]).max() > TOL * sc:
                 err = float('nan') if t == 'raise' else np.abs(t[0] / c - base[0]).max() / sc
                 ctx.violation('gni-real-scale', 'get_next_imf(c*x)/c differs from get_next_imf(x) for c=%g: rel err %.3g (guard margin %.3g)'
-                              % (c, err, g), dict(case, c=c))
+                              % (c, err, g), dict(rcase, c=c))
             else:
                 ctx.maxi('max_rel_err_scale', np.abs(t[0] / c - base[0]).max() / sc)
             t = run(x[::-1])
@@ -127,7 +136,7 @@ def check_gni(ctx, case):
             if t == 'raise' or t[1] != base[1] or np.abs(t[0][::-1] - base[0]).max() > TOL * sc:
                 err = float('nan') if t == 'raise' else np.abs(t[0][::-1] - base[0]).max() / sc
                 ctx.violation('gni-reverse', 'get_next_imf(reversed x) reversed differs from get_next_imf(x): rel err %.3g '
-                              '(guard margin %.3g, flags %s/%s)' % (err, g, t if t == 'raise' else t[1], base[1]), case)
+                              '(guard margin %.3g, flags %s/%s)' % (err, g, t if t == 'raise' else t[1], base[1]), rcase)
             else:
                 ctx.maxi('max_rel_err_reverse', np.abs(t[0][::-1] - base[0]).max() / sc)
     except WatchdogTimeout:
@@ -247,6 +256,23 @@ CHECK = {'gni': check_gni, 'sift': check_sift, 'mask': check_mask}
 def run_shard(ctx):
     rng = ctx.rng
     n = NCASES[ctx.tier] // ctx.nshards
+    if ctx.shard % 8 in (3, 5):
+        # size-dependent code paths: very long records (more than 2**16 samples), lengths not aligned to any power of two
+        for attempt in range(3):
+            N = int(gens.pick(rng, [65536, 70000, 100001, 140000])) + (int(rng.integers(0, 50)) if attempt else 0)
+            x = rng.standard_normal(N)
+            if ctx.shard % 8 == 3:
+                io = {'stop_method': 'fixed', 'max_iters': int(rng.integers(1, 4)), 'env_step_size': 1}
+            else:
+                io = {'stop_method': 'rilling', 'rilling_thresh': gens.pick(rng, [(0.05, 0.5, 0.05), (0.1, 1.0, 0.2)]), 'max_iters': 1000, 'env_step_size': 1}
+            case = {'kind': 'gni', 'family': 'noise-very-long', 'seed': int(rng.integers(1 << 30)), 'n': N, 'imf_opts': io,
+                    'envelope_opts': {'interp_method': 'splrep'}, 'extrema_opts': {}, 'pow2': [-1.0, 0.25], 'real': 3.7}
+            case['x'] = np.random.default_rng(case['seed']).standard_normal(N)
+            before = ctx.counters.get('gni_approx_reverse:splrep', 0)
+            check_gni(ctx, case, wd=400)
+            if ctx.counters.get('gni_approx_reverse:splrep', 0) > before:
+                ctx.count('very_long_records_compared')
+                break
     for i in range(n):
         if ctx.out_of_time():
             break
@@ -275,4 +301,7 @@ def finalize(agg, tier):
 
 
 def replay(ctx, case):
+    if case.get('family') == 'noise-very-long':
+        case = dict(case, x=np.random.default_rng(case['seed']).standard_normal(case['n']))
+        return check_gni(ctx, case, wd=600)
     CHECK[case['kind']](ctx, case)
